@@ -829,7 +829,27 @@ fn check(args: &[String]) {
             .args(["decoder-trace", "--chunks", &(cfg.total / CHUNK).to_string(), "--avail", &cfg.avail.to_string(), "--ops", &show_ops(&cfg.readers), "--bound", bound, "--out", &file])
             .output();
         let res = (|| -> Result<(usize, usize, usize, usize, Option<String>, Option<String>), String> {
-            let outp = outp.map_err(|e| format!("cannot run loommc: {e}"))?;
+            let mut outp = outp.map_err(|e| format!("cannot run loommc: {e}"))?;
+            // the process running the real code killed by a signal or by glibc's heap checks: a
+            // memory error of the code under exploration, when a second run dies the same way
+            let mem = |o: &std::process::Output| {
+                use std::os::unix::process::ExitStatusExt;
+                let se = String::from_utf8_lossy(&o.stderr).to_string();
+                match o.status.signal() {
+                    Some(11) | Some(7) => Some(format!("signal {}", o.status.signal().unwrap())),
+                    Some(6) if ["malloc()", "free()", "double free", "corrupted", "munmap_chunk", "tcache", "invalid pointer", "realloc()"].iter().any(|m| se.contains(m)) => Some(format!("heap corruption detected by the allocator: {}", se.lines().last().unwrap_or("").chars().take(120).collect::<String>())),
+                    _ => None,
+                }
+            };
+            if let Some(first) = mem(&outp) {
+                outp = std::process::Command::new(&lm)
+                    .args(["decoder-trace", "--chunks", &(cfg.total / CHUNK).to_string(), "--avail", &cfg.avail.to_string(), "--ops", &show_ops(&cfg.readers), "--bound", bound, "--out", &file])
+                    .output()
+                    .map_err(|e| format!("cannot run loommc: {e}"))?;
+                if mem(&outp).is_some() {
+                    return Ok((0, 0, 0, 0, None, Some(format!("memory error in the process running the real code under loom ({first}), reproduced on a second run"))));
+                }
+            }
             let so = String::from_utf8_lossy(&outp.stdout).to_string();
             let j: serde_json::Value = so.lines().rev().find(|l| l.starts_with('{')).and_then(|l| serde_json::from_str(l).ok()).ok_or_else(|| format!("loommc gave no report: {} {}", so, String::from_utf8_lossy(&outp.stderr).chars().take(300).collect::<String>()))?;
             let execs = j["executions"].as_u64().unwrap_or(0) as usize;
@@ -867,7 +887,7 @@ fn check(args: &[String]) {
                     // the real code fails under loom (deadlock, panic, causality violation): a verdict
                     if findings.len() < 8 {
                         findings.push(serde_json::json!({
-                            "key": format!("C07 real decoder under loom (trace run): {}", if le.to_lowercase().contains("deadlock") { "deadlock" } else if le.contains("ausality") { "causality violation (data race)" } else { "panic" }),
+                            "key": format!("C07 real decoder under loom (trace run): {}", if le.starts_with("memory error") { "memory error" } else if le.to_lowercase().contains("deadlock") { "deadlock" } else if le.contains("ausality") { "causality violation (data race)" } else { "panic" }),
                             "what": format!("readers [{}], stream delivers {} of {} bytes, preemption bound {bound}: {le}", show_ops(&cfg.readers), cfg.avail, cfg.total),
                             "count": 1,
                             "case": {"engine": "protomc", "sub": "check", "kind": "conform", "chunks": cfg.total / CHUNK, "avail": cfg.avail, "ops": show_ops(&cfg.readers), "bound": bound},
